@@ -124,6 +124,8 @@ declarations:
 - decl: void takes(Cls *c, const Cls &d)
 - decl: Cls *findCls(int id)
 - decl: Cls *newCls(int id) +owner(caller)
+- decl: Cls &refCls(int id)
+- decl: const Cls &crefCls(int id)
 - decl: Cls valCls(int id)
 - decl: Color nextColor(Color c)
 - decl: void over(int a)
@@ -180,6 +182,8 @@ public:
 void takes(Cls *c, const Cls &d);
 Cls *findCls(int id);
 Cls *newCls(int id);
+Cls &refCls(int id);
+const Cls &crefCls(int id);
 Cls valCls(int id);
 Color nextColor(Color c);
 void over(int a);
@@ -216,6 +220,8 @@ int Cls::which() { vt_txt("RECV Cls::which-mutable this="); vt_i(m_id); vt_txt("
 void takes(Cls *c, const Cls &d) { vt_txt("RECV takes c="); vt_i(c->id()); vt_txt(" d="); vt_i(d.id()); vt_txt("\n"); }
 static Cls *lib_objs[2];
 Cls *findCls(int id) { if (!lib_objs[0]) { lib_objs[0] = new Cls(100); lib_objs[1] = new Cls(101); } vt_txt("RECV findCls id="); vt_i(id); vt_txt("\n"); return lib_objs[id % 2]; }
+Cls &refCls(int id) { vt_txt("RECV refCls id="); vt_i(id); vt_txt("\n"); return *lib_objs[id % 2]; }
+const Cls &crefCls(int id) { vt_txt("RECV crefCls id="); vt_i(id); vt_txt("\n"); return *lib_objs[id % 2]; }
 Cls *newCls(int id) { vt_txt("RECV newCls id="); vt_i(id); vt_txt("\n"); return new Cls(id); }
 Cls valCls(int id) { vt_txt("RECV valCls id="); vt_i(id); vt_txt("\n"); return Cls(id); }
 Color nextColor(Color c) { vt_txt("RECV nextColor c="); vt_i((int) c); vt_txt("\n"); return c == RED ? GREEN : c == GREEN ? BLUE : RED; }
@@ -267,7 +273,7 @@ def scenario_case(args):
     _, NI = namer_for("Cee", naming, "ns_inner_")
     T = P + "Cls"
     d = {"T": T, "P": P, "ctor": NC("ctor", ""), "dtor": NC("dtor", ""), "id": NC("id", ""), "add": NC("add", ""), "twice": NC("twice", ""),
-         "rename": NC("rename", ""), "name": NC("name", ""), "whichc": NC("which", "_const"), "whichm": NC("which", "_mutable"), "takes": N("takes", ""), "find": N("findCls", ""), "new": N("newCls", ""),
+         "rename": NC("rename", ""), "name": NC("name", ""), "whichc": NC("which", "_const"), "whichm": NC("which", "_mutable"), "takes": N("takes", ""), "find": N("findCls", ""), "new": N("newCls", ""), "ref": N("refCls", ""), "cref": N("crefCls", ""),
          "val": N("valCls", ""), "next": N("nextColor", ""), "over0": N("over", "_0"), "over1": N("over", "_1"), "dflt0": N("dflt", "_0"),
          "dflt1": N("dflt", "_1"), "tint": N("tmpl", "_int"), "tdbl": N("tmpl", "_double"), "w0": N("weigh", "_0"), "w1": N("weigh", "_1"), "order": N("order", ""), "nsf": NN("nsf", ""),
          "innerf": NI("innerf", "")}
@@ -283,6 +289,8 @@ int main(void) {
   printf("OBS which"); obs_i(%(whichc)s(&a)); obs_i(%(whichm)s(&b)); obs_i(%(whichc)s(&b)); printf("\n");
   %(takes)s(&a, &b); %(takes)s(&b, &a);
   %(find)s(0, &r); printf("OBS find"); obs_i(%(id)s(&r)); %(find)s(3, &r); obs_i(%(id)s(&r)); printf("\n");
+  /* a class returned by reference is the library's own object: what is done through the handle is seen by the library */
+  %(ref)s(0, &r); %(rename)s(&r, "zed"); %(find)s(0, &r); printf("OBS ref"); obs_z(%(name)s(&r)); %(cref)s(2, &r); obs_z(%(name)s(&r)); obs_i(%(id)s(&r)); printf("\n");
   %(new)s(7, &r); printf("OBS new"); obs_i(%(id)s(&r)); obs_i(%(add)s(&r, 1)); printf("\n"); %(dtor)s(&r);
   %(val)s(8, &r); printf("OBS val"); obs_i(%(id)s(&r)); printf("\n"); %(dtor)s(&r);
   printf("OBS color"); obs_i(%(next)s(%(P)sRED)); obs_i(%(next)s(%(P)sGREEN)); obs_i(%(next)s(%(P)sBLUE)); printf("\n");
@@ -297,7 +305,7 @@ int main(void) {
 }
 """ % d
     open(os.path.join(out, "driver.c"), "w").write(drv)
-    exp_obs = ["OBS ids 5 9", "OBS add 8 13 4", "OBS twice 42", "OBS names 0:[] 3:[bee]", "OBS which 1 2 1", "OBS find 100 101", "OBS new 7 8", "OBS val 8",
+    exp_obs = ["OBS ids 5 9", "OBS add 8 13 4", "OBS twice 42", "OBS names 0:[] 3:[bee]", "OBS which 1 2 1", "OBS find 100 101", "OBS ref 3:[zed] 3:[zed] 100", "OBS new 7 8", "OBS val 8",
                "OBS color 3 4 0", "OBS dflt 32 34", "OBS tmpl 42 " + A.rnd(A.NATIVE["double"], 2.5),
                "OBS weigh %s %s" % (A.rnd(A.NATIVE["double"], 7.5), A.rnd(A.NATIVE["double"], 2e9)), "OBS ns 2 3"]
     D = A.NATIVE["double"]
@@ -306,6 +314,7 @@ int main(void) {
                 "RECV Cls::which-const this=5", "RECV Cls::which-mutable this=9", "RECV Cls::which-const this=9",
                 "RECV takes c=5 d=9", "RECV takes c=9 d=5",
                 "RECV Cls::Cls id=100", "RECV Cls::Cls id=101", "RECV findCls id=0", "RECV findCls id=3",
+                "RECV refCls id=0", "RECV Cls::rename this=100 name=3:[zed]", "RECV findCls id=0", "RECV crefCls id=2",
                 "RECV newCls id=7", "RECV Cls::Cls id=7", "RECV Cls::add this=7 x=1", "RECV Cls::~Cls this=7",
                 "RECV valCls id=8", "RECV Cls::Cls id=8", "@copies", "RECV Cls::~Cls this=8",
                 "RECV nextColor c=0", "RECV nextColor c=3", "RECV nextColor c=4",
